@@ -20,3 +20,8 @@ def nested(n):
     from loky.process_executor import ProcessPoolExecutor
     with ProcessPoolExecutor(max_workers=1) as ex:
         return sum(ex.map(ident, range(n)))
+
+
+class Unpicklable:
+    def __reduce__(self):
+        raise ZeroDivisionError("cannot be pickled")
